@@ -34,6 +34,7 @@ RULE = ('Exhaustive entry "enum": one evaluation = one chi^2 vector (length 0..5
         'loose-then-tight laws. Non-trivial = length >= 2 and some selector keeps a proper non-empty subset, or the vector '
         'contains a tie / inf / NaN; for histories: >= 2 keep() calls of which one removed rows.')
 RULE += (' ' + 'The history machine also writes the result to a fit file (save) and continues with the record read back (reload), several states of the same objects sharing one file.')
+RULE += (' ' + 'The sources carry flag-4 log fluxes below, at and above 0 and placeholders in unused bands.')
 ASSUMPTIONS = [
     "selectors are 2-tuples as on the syntax page; ('A', value) ignores value",
     'thresholds exactly equal to an attained value are excluded (the code uses <=, the page says "below")',
@@ -55,7 +56,10 @@ def make_source(n_data, extra_flags=(9, 0, 2, 3)):
     s.x = 0.
     s.y = 0.
     s.valid = np.array(flags, dtype=int)
-    s.flux = np.array([1.5] * len(flags))
+    # values of the kind each flag usually carries: log10 fluxes at, below and above 1 mJy for flag 4, placeholders for the
+    # points that are not used
+    fl4 = (-1.25, 0., 0.6)
+    s.flux = np.array([fl4[(i // 2) % 3] if f == 4 else -999. if f == 9 else 0. if f == 0 else 1.5 for i, f in enumerate(flags)])
     s.error = np.array([0.5] * len(flags))
     return s
 
